@@ -120,6 +120,11 @@ package dsl
 // C04: the schema text must tell apart what is encoded differently. A fixed-size array (lengths given) is written
 // without a shape, an array of known rank with one, and named dimensions are part of the model: the compact spelling
 // of `dimensions` (just the rank) is used only when no dimension carries a name or a length.
+// C04: a number that selects an encoding (the length of a fixed vector or dimension; zero is a legal length) must be
+// visible in the schema whenever it is given: no struct of this package, the function-local JSON views of json.go
+// included, writes a number through `omitempty` (encoding/json would leave out 0 exactly like an absent value). Lengths
+// are pointers for that reason.
+//@ json-numbers C04 package
 //@ observe-args encoding/json.Marshal
 //@ func (ArrayDimensions).MarshalJSON
 //@   property C04
@@ -170,6 +175,14 @@ package dsl
 // C11/C09: a package is accepted only if every model file in it satisfies the rules. A directory walk that fails
 // (a sub-directory that cannot be read, a file that vanished) has not seen every model file: it is an error of the
 // command, not a log line followed by a model made of the files that could be listed.
+// C13 (distribution over files) / C09: "All other .yml and .yaml files in the directory are assumed to be yardl model
+// files" (docs): the walk collects every regular file with one of the two suffixes except the manifest `_package.yml`,
+// and nothing else.
+//@ func ParseYamlInDir$1
+//@   property C13,C09
+//@   ensures a_walk_error_is_returned: err != nil ==> result == err
+//@   ensures every_model_file_is_collected: err == nil && info != nil && !info.IsDir() && (hasSuffix(info.Name(), ".yml") || hasSuffix(info.Name(), ".yaml")) && info.Name() != "_package.yml" ==> len(paths) == old(len(paths)) + 1 && paths[len(paths)-1] == path
+//@   ensures nothing_else_is_collected: err == nil && info != nil && (info.IsDir() || !(hasSuffix(info.Name(), ".yml") || hasSuffix(info.Name(), ".yaml")) || info.Name() == "_package.yml") ==> len(paths) == old(len(paths))
 //@ func ParseYamlInDir
 //@   property C11,C09
 //@   ensures an_incomplete_directory_walk_is_an_error: errSeen(filepath.Walk) ==> result1 != nil
@@ -203,10 +216,39 @@ package dsl
 //@   requires node != nil
 //@ func validateChanges@saveError
 //@   requires node != nil
+// C06 "classification into error / warning / silent" (docs/cpp/evolution.md): what the comparison found is reported -
+// an incompatible definition, an incompatible change of a named type or of a record field, a changed enum base type
+// and removed or changed enum values are errors; a compatible definition reports nothing. calls(p) counts the calls
+// through the sink parameters; old() is the start of the iteration.
+// "Optional" is a property of a type without dimensionality: a vector, array, map or stream whose elements may be null is
+// not itself optional (its zero value is the empty collection, and the warning about non-optional added or removed
+// fields applies to it in either spelling).
+//@ func TypeHasNullOption$1
+//@   property C06,C13
+//@   ensures a_collection_is_not_optional: typeof(node) == *GeneralizedType && node.(*GeneralizedType) != nil && node.(*GeneralizedType).Dimensionality != nil ==> hasNull == old(hasNull)
+//@   ensures a_scalar_with_a_null_case_is_optional: typeof(node) == *GeneralizedType && node.(*GeneralizedType) != nil && node.(*GeneralizedType).Dimensionality == nil && old(node.(*GeneralizedType).Cases.HasNullOption()) ==> hasNull
 //@ func validateProtocolChanges
 //@   property C10,C06
+//@   iteration 2: a_reordered_step_is_an_error: calls(saveError) > old(calls(saveError))
+//@   iteration 3: a_removed_step_is_an_error: calls(saveError) > old(calls(saveError))
+//@   iteration 4: an_incompatible_step_change_is_an_error: old(protChange.StepChanges[i]) != nil && typeof(old(protChange.StepChanges[i])) != *TypeChangeStepAdded && old(typeChangeIsError(protChange.StepChanges[i])) ==> calls(saveError) > old(calls(saveError))
+//@   iteration 4: a_compatible_step_change_is_not_an_error: old(protChange.StepChanges[i]) == nil || (typeof(old(protChange.StepChanges[i])) != *TypeChangeStepAdded && !old(typeChangeIsError(protChange.StepChanges[i]))) ==> calls(saveError) == old(calls(saveError))
+// C13/C06: the verdict may not depend on how a type is spelled. `int?[x, y]` and `!array {items: [null, int], dimensions:
+// [x, y]}` are the same array of optionals; the expanded form keeps the element cases on the collection node itself, so
+// "has a null case" says something about the type only when the node has no dimensionality. An array can never be empty.
+//@   iteration 4: an_added_array_step_is_an_error_however_it_is_spelled: typeof(old(protChange.StepChanges[i])) == *TypeChangeStepAdded && old(typeof(GetUnderlyingType(step.Type)) == *GeneralizedType && GetUnderlyingType(step.Type).(*GeneralizedType) != nil && typeof(GetUnderlyingType(step.Type).(*GeneralizedType).Dimensionality) == *Array) ==> calls(saveError) > old(calls(saveError))
+//@   iteration 4: an_added_step_that_cannot_be_empty_is_an_error: typeof(old(protChange.StepChanges[i])) == *TypeChangeStepAdded && old(typeof(GetUnderlyingType(step.Type)) != *GeneralizedType) ==> calls(saveError) > old(calls(saveError))
 //@ func validateTypeDefinitionChanges
 //@   property C10,C06
+//@   iteration 0: an_incompatible_definition_is_an_error: typeof(ch) == *DefinitionChangeIncompatible ==> calls(saveError) > old(calls(saveError))
+//@   iteration 0: a_compatible_definition_is_silent: typeof(ch) == *CompatibilityChange || typeof(ch) == *AliasRemoved ==> calls(saveError) == old(calls(saveError)) && calls(saveWarning) == old(calls(saveWarning))
+//@   iteration 0: an_incompatible_named_type_change_is_an_error: typeof(ch) == *NamedTypeChange && old(ch.(*NamedTypeChange).TypeChange) != nil && old(typeChangeIsError(ch.(*NamedTypeChange).TypeChange)) ==> calls(saveError) > old(calls(saveError))
+//@   iteration 0: a_compatible_named_type_change_is_not_an_error: typeof(ch) == *NamedTypeChange && (old(ch.(*NamedTypeChange).TypeChange) == nil || !old(typeChangeIsError(ch.(*NamedTypeChange).TypeChange))) ==> calls(saveError) == old(calls(saveError))
+//@   iteration 2: an_incompatible_field_change_is_an_error: !old(defChange.FieldRemoved[i]) && old(defChange.FieldChanges[i]) != nil && old(typeChangeIsError(defChange.FieldChanges[i])) ==> calls(saveError) > old(calls(saveError))
+//@   iteration 2: a_compatible_field_change_is_not_an_error: old(defChange.FieldRemoved[i]) || old(defChange.FieldChanges[i]) == nil || !old(typeChangeIsError(defChange.FieldChanges[i])) ==> calls(saveError) == old(calls(saveError))
+//@   iteration 0: a_changed_enum_base_is_an_error: typeof(ch) == *EnumChange && old(ch.(*EnumChange).BaseTypeChange) != nil ==> calls(saveError) > old(calls(saveError))
+//@   iteration 0: removed_enum_values_are_an_error: typeof(ch) == *EnumChange && old(len(ch.(*EnumChange).ValuesRemoved)) > 0 ==> calls(saveError) > old(calls(saveError))
+//@   iteration 0: changed_enum_values_are_an_error: typeof(ch) == *EnumChange && old(len(ch.(*EnumChange).ValuesChanged)) > 0 ==> calls(saveError) > old(calls(saveError))
 // Expression nodes carry the position of their token (1-based, relative to the expression text); ParseExpression
 // then shifts it by the host node's position. A node without a position cannot produce a located diagnostic.
 //@ func nodeMetaFromPosition
@@ -549,6 +591,32 @@ package dsl
 //@   property C19
 //@   ensures pow_promotes_by_common_type: typeof(node) == *BinaryExpression && called(GetCommonType) && !called(validationError) && typeof(result) == *BinaryExpression && result.(*BinaryExpression) != nil && result.(*BinaryExpression).Operator == BinaryOpPow && result.(*BinaryExpression).ResolvedType != nil ==> (GetKindIfPrimitive(commonOf()).r0 == PrimitiveKindInteger ==> result.(*BinaryExpression).ResolvedType == Float64Type) && (GetKindIfPrimitive(commonOf()).r0 != PrimitiveKindInteger ==> result.(*BinaryExpression).ResolvedType == commonOf())
 //@   ensures small_integers_promote_to_int32: typeof(node) == *BinaryExpression && called(GetCommonType) && !called(validationError) && typeof(result) == *BinaryExpression && result.(*BinaryExpression) != nil && result.(*BinaryExpression).Operator != BinaryOpPow && result.(*BinaryExpression).ResolvedType != nil ==> ((GetPrimitiveType(commonOf()).primitive == Int8 || GetPrimitiveType(commonOf()).primitive == Uint8 || GetPrimitiveType(commonOf()).primitive == Int16 || GetPrimitiveType(commonOf()).primitive == Uint16) ==> result.(*BinaryExpression).ResolvedType == Int32Type) && (!(GetPrimitiveType(commonOf()).primitive == Int8 || GetPrimitiveType(commonOf()).primitive == Uint8 || GetPrimitiveType(commonOf()).primitive == Int16 || GetPrimitiveType(commonOf()).primitive == Uint16) ==> result.(*BinaryExpression).ResolvedType == commonOf())
+// C19 "static type does not depend on operand order": the type of a switch expression is the common type of the types of
+// its cases, folded case by case with GetCommonType (commutative by its table, C19 GetCommonType contracts): the running
+// type after a case is exactly what GetCommonType returned for (running type, type of the case) - not the type of the
+// case itself, nor the old running type.
+//@   iteration 16: the_type_of_a_switch_is_folded_with_the_common_type: calls(GetCommonType) > old(calls(GetCommonType)) ==> next(commonType) == lastResult(GetCommonType).r0
+//@   iteration 16: a_case_without_a_type_leaves_the_running_type: commonType != nil && calls(GetCommonType) == old(calls(GetCommonType)) ==> next(commonType) == commonType
+
+// ---- C09 "ill-typed computed field" / C19 static type: the built-in functions. A call with the wrong number of
+// arguments is an error; whatever comes back (the call itself or the literal it was simplified to) has type `size`.
+// (The arguments are rewritten first, through callbacks that may report errors of their own, so "is an error" is stated
+// as "an error is added to a sink by this function", not as a comparison with the length of the sink on entry.)
+//@ func resolveDimensionCountFunctionCall
+//@   property C09,C19
+//@   requires errorSink != nil && functionCall != nil && visitor != nil
+//@   ensures wrong_arity_is_an_error: typeof(result) == *FunctionCallExpression && result.(*FunctionCallExpression) != nil && len(result.(*FunctionCallExpression).Arguments) != 1 ==> called("validation.(*ErrorSink).Add")
+//@   ensures the_result_is_a_size: (typeof(result) == *FunctionCallExpression && result.(*FunctionCallExpression) != nil ==> result.(*FunctionCallExpression).ResolvedType == SizeType) && (typeof(result) == *IntegerLiteralExpression && result.(*IntegerLiteralExpression) != nil ==> result.(*IntegerLiteralExpression).ResolvedType == SizeType)
+//@ func resolveDimensionIndexFunctionCall
+//@   property C09,C19
+//@   requires errorSink != nil && functionCall != nil && visitor != nil
+//@   ensures wrong_arity_is_an_error: typeof(result) == *FunctionCallExpression && result.(*FunctionCallExpression) != nil && len(result.(*FunctionCallExpression).Arguments) != 2 ==> called("validation.(*ErrorSink).Add")
+//@   ensures the_result_is_a_size: (typeof(result) == *FunctionCallExpression && result.(*FunctionCallExpression) != nil ==> result.(*FunctionCallExpression).ResolvedType == SizeType) && (typeof(result) == *IntegerLiteralExpression && result.(*IntegerLiteralExpression) != nil ==> result.(*IntegerLiteralExpression).ResolvedType == SizeType)
+//@ func resolveSizeFunctionCall
+//@   property C09,C19
+//@   requires errorSink != nil && functionCall != nil && visitor != nil
+//@   ensures wrong_arity_is_an_error: typeof(result) == *FunctionCallExpression && result.(*FunctionCallExpression) != nil && (len(result.(*FunctionCallExpression).Arguments) == 0 || len(result.(*FunctionCallExpression).Arguments) > 2) ==> called("validation.(*ErrorSink).Add")
+//@   ensures the_result_is_a_size: (typeof(result) == *FunctionCallExpression && result.(*FunctionCallExpression) != nil ==> result.(*FunctionCallExpression).ResolvedType == SizeType) && (typeof(result) == *IntegerLiteralExpression && result.(*IntegerLiteralExpression) != nil ==> result.(*IntegerLiteralExpression).ResolvedType == SizeType)
 
 // ---- C09 / C04: visitor callbacks must keep descending, otherwise a construct nested deeper is never looked at --
 // Cycle detection / dependency sort: a type reference always descends into its type arguments (a cycle can close
@@ -557,13 +625,27 @@ package dsl
 //@   property C09,C13
 //@   ensures type_references_always_descend: typeof(node) == *SimpleType && node.(*SimpleType) != nil ==> called("dsl.(VisitorWithContext[Node]).VisitChildren")
 //@   ensures fields_always_descend: typeof(node) == *Field && node.(*Field) != nil ==> called("dsl.(VisitorWithContext[Node]).VisitChildren")
+// "cyclic type reference": a definition that is met again while it is still on the path being explored (its entry in
+// the path map is not nil) is a cycle and an error; one that was finished earlier is not visited again and adds nothing.
+//@   ensures a_definition_met_on_its_own_path_is_a_cycle_error: typeof(node) != *ProtocolDefinition && typeof(node) == TypeDefinition && old(node.(TypeDefinition) in predecessors) && old(predecessors[node.(TypeDefinition)]) != nil ==> len(errorSink.Errors) > old(len(errorSink.Errors))
+//@   ensures a_finished_definition_is_not_visited_again: typeof(node) != *ProtocolDefinition && typeof(node) == TypeDefinition && old(node.(TypeDefinition) in predecessors) ==> !called("dsl.(VisitorWithContext[Node]).VisitChildren") && len(sortedTypes) == old(len(sortedTypes))
+// dependencies first (C13: the order of the generated definitions does not depend on the order of the source): a
+// definition met for the first time is put on the path, its children are visited, and only then is it appended
+//@   ensures a_new_definition_is_appended_after_its_children: typeof(node) != *ProtocolDefinition && typeof(node) == TypeDefinition && !old(node.(TypeDefinition) in predecessors) ==> called("dsl.(VisitorWithContext[Node]).VisitChildren") && len(sortedTypes) > 0 && sortedTypes[len(sortedTypes)-1] == node.(TypeDefinition)
 
 // Schema closure: every type reference descends (type arguments of a second use of the same generic may name types
 // that are reachable in no other way).
+//@ observe-args dsl.(Visitor).VisitChildren
 //@ func GetProtocolSchema$1
-//@   property C04,C13
+//@   property C04,C13,C15
 //@   ensures type_references_always_descend: typeof(node) == *SimpleType && node.(*SimpleType) != nil ==> called("dsl.(Visitor).VisitChildren") && called("dsl.(Visitor).Visit")
 //@   ensures generalized_types_always_descend: typeof(node) == *GeneralizedType ==> called("dsl.(Visitor).VisitChildren")
+// C04/C15 "the schema depends only on the protocol and the named types it transitively uses": every definition object
+// that is reached for the first time is added (two definitions that share a simple name, in different namespaces, are
+// two definitions); "computed fields leave it unchanged": the closure does not descend into the computed fields of a
+// record (a type that only a computed field mentions - a switch pattern - is not used by the encoding).
+//@   ensures a_definition_reached_for_the_first_time_is_added: typeof(node) != *ProtocolDefinition && typeof(node) != PrimitiveDefinition && typeof(node) != *GenericTypeParameter && typeof(node) == TypeDefinition && !old(node.(TypeDefinition) in visitedTypeDefinitions) ==> called("dsl.removeComments[github.com/microsoft/yardl/tooling/pkg/dsl.TypeDefinition]")
+//@   ensures computed_fields_are_not_part_of_the_closure: typeof(node) == *RecordDefinition && node.(*RecordDefinition) != nil && called("dsl.(Visitor).VisitChildren") ==> typeof(lastArg("dsl.(Visitor).VisitChildren", 1)) == *RecordDefinition && lastArg("dsl.(Visitor).VisitChildren", 1).(*RecordDefinition) != nil && len(lastArg("dsl.(Visitor).VisitChildren", 1).(*RecordDefinition).ComputedFields) == 0
 
 // ---- C06: "changing the type arguments to a generic type" is incompatible. The arguments may be spelled at the use
 // site (`R<float>` -> `R<int>`) or inside an alias the use site names (`AF: R<float>`, `AI: R<int>`, step type AF -> AI):
@@ -584,7 +666,7 @@ package dsl
 // every instantiation instead, which the pass reaches through the resolved definition of a reference with type arguments.
 //@ spec func keyIsTypeParameter(m *Map) bool = typeof(keyUnderlying(m)) == *SimpleType && keyUnderlying(m).(*SimpleType) != nil && typeof(keyUnderlying(m).(*SimpleType).ResolvedDefinition) == *GenericTypeParameter
 //@ func validateMaps$1
-//@   property C09
+//@   property C09,C13
 //@   requires errorSink != nil
 // (a reference is checked once, see validateUnionCases: the memo holds the references met so far)
 //@   ensures everything_but_maps_descends: typeof(node) != *Map && !(typeof(node) == *SimpleType && old(node.(*SimpleType) in seenReferences)) ==> called("dsl.(Visitor).VisitChildren")
@@ -695,7 +777,7 @@ package dsl
 //@   ensures element_change_is_carried: typeof(old(oldType.Dimensionality)) == *Stream && innerChange != nil ==> typeof(result) == *TypeChangeStreamTypeChanged && result.(*TypeChangeStreamTypeChanged).InnerChange == innerChange
 //@   ensures unchanged_is_no_change: typeof(old(oldType.Dimensionality)) == *Stream && innerChange == nil ==> result == nil
 //@ func detectVectorChanges
-//@   property C06
+//@   property C06,C05,C15
 //@   requires newType != nil && oldType != nil && typeof(newType.Dimensionality) == *Vector && newType.Dimensionality.(*Vector) != nil
 //@   requires typeof(old(oldType.Dimensionality)) == *Vector ==> oldType.Dimensionality.(*Vector) != nil
 //@   ensures non_vector_to_vector_is_incompatible: typeof(old(oldType.Dimensionality)) != *Vector ==> typeof(result) == *TypeChangeIncompatible
@@ -705,7 +787,7 @@ package dsl
 //@ spec func arrDims(t *GeneralizedType) *ArrayDimensions = t.Dimensionality.(*Array).Dimensions
 //@ spec func sameDim(a *ArrayDimension, b *ArrayDimension) bool = (a.Length == nil) == (b.Length == nil) && (a.Length != nil ==> *a.Length == *b.Length)
 //@ func detectArrayChanges
-//@   property C06
+//@   property C06,C05,C15
 //@   requires newType != nil && oldType != nil && typeof(newType.Dimensionality) == *Array && newType.Dimensionality.(*Array) != nil
 //@   requires typeof(old(oldType.Dimensionality)) == *Array ==> oldType.Dimensionality.(*Array) != nil
 //@   invariant 0: forall k in 0..rangeindex+1 :: sameDim((*arrDims(newType))[k], (*arrDims(oldType))[k])
@@ -833,7 +915,27 @@ package dsl
 //@   iteration 0: steps_with_the_same_generated_name_are_an_error: forall k in 0..rangeindex :: (formatting.ToSnakeCase(protocol.Sequence[k].Name) == formatting.ToSnakeCase(step.Name) && protocol.Sequence[k].Name != step.Name ==> len(errorSink.Errors) > old(len(errorSink.Errors)))
 //@ func validateEnums$1
 //@   property C09
+//@   requires errorSink != nil
 //@   ensures non_enums_descend: typeof(node) != *EnumDefinition ==> called("dsl.(Visitor).VisitChildren")
+// "bad enum/flag value" (docs: symbols are camelCased and unique, values are unique and fit the base type, which is
+// an integer type, int32 when none is given): each violation adds an error. The ranges are the ones of the primitive
+// types, written as numbers here and compared with the package-level limits the code uses.
+//@   invariant 0: forall k in 0..rangeindex+1 :: (enum.Values[k].Symbol in symbols)
+//@   iteration 0: badly_cased_symbol_is_an_error: !lastResult("regexp.(*Regexp).MatchString") ==> len(errorSink.Errors) > old(len(errorSink.Errors))
+//@   iteration 0: repeated_symbol_is_an_error: old(enumValue.Symbol in symbols) ==> len(errorSink.Errors) > old(len(errorSink.Errors))
+//@   iteration 1: symbols_with_the_same_value_are_an_error: len(syms) > 1 ==> len(errorSink.Errors) > old(len(errorSink.Errors))
+//@   invariant 2: minValue != nil
+//@   invariant 2: enum.BaseType == nil ==> bigval(minValue) == -2147483648 && bigval(maxValue) == 2147483647
+//@   invariant 2: baseType == Int8 ==> bigval(minValue) == -128 && bigval(maxValue) == 127
+//@   invariant 2: baseType == Uint8 ==> bigval(minValue) == 0 && bigval(maxValue) == 255
+//@   invariant 2: baseType == Int16 ==> bigval(minValue) == -32768 && bigval(maxValue) == 32767
+//@   invariant 2: baseType == Uint16 ==> bigval(minValue) == 0 && bigval(maxValue) == 65535
+//@   invariant 2: baseType == Int32 ==> bigval(minValue) == -2147483648 && bigval(maxValue) == 2147483647
+//@   invariant 2: baseType == Uint32 ==> bigval(minValue) == 0 && bigval(maxValue) == 4294967295
+//@   invariant 2: baseType == Int64 ==> bigval(minValue) == -9223372036854775808 && bigval(maxValue) == 9223372036854775807
+//@   invariant 2: baseType == Uint64 || baseType == Size ==> bigval(minValue) == 0
+//@   iteration 2: a_value_inside_the_base_type_is_accepted: bigval(enumValue.IntegerValue) >= bigval(minValue) && bigval(enumValue.IntegerValue) <= bigval(maxValue) ==> len(errorSink.Errors) == old(len(errorSink.Errors))
+//@   iteration 2: a_value_outside_the_base_type_is_an_error: bigval(enumValue.IntegerValue) < bigval(minValue) || bigval(enumValue.IntegerValue) > bigval(maxValue) ==> len(errorSink.Errors) > old(len(errorSink.Errors))
 
 // ---- C13 / C12: which comment lines in front of an element are its documentation. docs: a comment is documentation
 // only when no empty line separates it from the element, so of several comment blocks in front of an element the
@@ -853,27 +955,18 @@ package dsl
 // compareTypes: two missing types are equal and a missing type never equals a present one; a scalar never becomes a
 // collection or the other way round (also when the scalar is spelled as a reference); a collection whose elements are
 // incompatible is incompatible; otherwise the verdict is the one of the function that knows the new collection kind.
-// A scalar generalized type with a single case is another spelling of that case's type (`int?*` is parsed as a vector
-// whose only case is `int?`, `!vector {items: [null, int]}` as a vector with the two cases): the verdict is the verdict
-// for the case's type, whichever side the wrapper is on (C13: the same model in two spellings compares as unchanged).
-//@ spec func isSingleCaseScalar(t Type) bool = typeof(t) == *GeneralizedType && t.(*GeneralizedType) != nil && t.(*GeneralizedType).Dimensionality == nil && len(t.(*GeneralizedType).Cases) == 1
-//@ spec func onlyCase(t Type) Type = t.(*GeneralizedType).Cases[0].Type
-//@ observe-args dsl.compareTypes
 //@ func compareTypes
-//@   property C06,C13
-//@   ensures a_single_case_on_the_new_side_is_its_type: old(isSingleCaseScalar(newType)) ==> calls(compareTypes) == 1 && result == lastResult(compareTypes) && lastArg(compareTypes, 0) == old(onlyCase(newType)) && lastArg(compareTypes, 1) == oldType
-//@   ensures a_single_case_on_the_old_side_is_its_type: !old(isSingleCaseScalar(newType)) && old(isSingleCaseScalar(oldType)) ==> calls(compareTypes) == 1 && result == lastResult(compareTypes) && lastArg(compareTypes, 0) == newType && lastArg(compareTypes, 1) == old(onlyCase(oldType))
 //@   property C06
 //@   ensures absent_equals_absent: newType == nil && oldType == nil ==> result == nil
-//@   ensures absent_never_equals_present: newType == nil && oldType != nil && !old(isSingleCaseScalar(oldType)) ==> typeof(result) == *TypeChangeIncompatible
-//@   ensures scalar_and_collection_are_incompatible: !old(isSingleCaseScalar(newType)) && !old(isSingleCaseScalar(oldType)) && typeof(newType) == *GeneralizedType && typeof(oldType) == *GeneralizedType && newType.(*GeneralizedType) != nil && oldType.(*GeneralizedType) != nil && (old(newType.(*GeneralizedType).Dimensionality) == nil) != (old(oldType.(*GeneralizedType).Dimensionality) == nil) ==> typeof(result) == *TypeChangeIncompatible
+//@   ensures absent_never_equals_present: newType == nil && oldType != nil ==> typeof(result) == *TypeChangeIncompatible
+//@   ensures scalar_and_collection_are_incompatible: typeof(newType) == *GeneralizedType && typeof(oldType) == *GeneralizedType && newType.(*GeneralizedType) != nil && oldType.(*GeneralizedType) != nil && (old(newType.(*GeneralizedType).Dimensionality) == nil) != (old(oldType.(*GeneralizedType).Dimensionality) == nil) ==> typeof(result) == *TypeChangeIncompatible
 //@   ensures reference_to_collection_is_incompatible: typeof(newType) == *SimpleType && newType.(*SimpleType) != nil && typeof(old(newType.(*SimpleType).ResolvedDefinition)) != *NamedType && typeof(oldType) == *GeneralizedType && oldType.(*GeneralizedType) != nil && old(oldType.(*GeneralizedType).Dimensionality) != nil ==> typeof(result) == *TypeChangeIncompatible
 //@   ensures collection_to_reference_is_incompatible: typeof(oldType) == *SimpleType && oldType.(*SimpleType) != nil && typeof(old(oldType.(*SimpleType).ResolvedDefinition)) != *NamedType && typeof(newType) == *GeneralizedType && newType.(*GeneralizedType) != nil && old(newType.(*GeneralizedType).Dimensionality) != nil ==> typeof(result) == *TypeChangeIncompatible
 //@   ensures vectors_are_judged_as_vectors: typeof(newType) == *GeneralizedType && typeof(oldType) == *GeneralizedType && newType.(*GeneralizedType) != nil && oldType.(*GeneralizedType) != nil && typeof(old(newType.(*GeneralizedType).Dimensionality)) == *Vector && old(oldType.(*GeneralizedType).Dimensionality) != nil && typeof(result) != *TypeChangeIncompatible ==> called(detectVectorChanges) && result == lastResult(detectVectorChanges)
 //@   ensures arrays_are_judged_as_arrays: typeof(newType) == *GeneralizedType && typeof(oldType) == *GeneralizedType && newType.(*GeneralizedType) != nil && oldType.(*GeneralizedType) != nil && typeof(old(newType.(*GeneralizedType).Dimensionality)) == *Array && old(oldType.(*GeneralizedType).Dimensionality) != nil && typeof(result) != *TypeChangeIncompatible ==> called(detectArrayChanges) && result == lastResult(detectArrayChanges)
 //@   ensures maps_are_judged_as_maps: typeof(newType) == *GeneralizedType && typeof(oldType) == *GeneralizedType && newType.(*GeneralizedType) != nil && oldType.(*GeneralizedType) != nil && typeof(old(newType.(*GeneralizedType).Dimensionality)) == *Map && old(oldType.(*GeneralizedType).Dimensionality) != nil && typeof(result) != *TypeChangeIncompatible ==> called(detectMapChanges) && result == lastResult(detectMapChanges)
 //@   ensures streams_are_judged_as_streams: typeof(newType) == *GeneralizedType && typeof(oldType) == *GeneralizedType && newType.(*GeneralizedType) != nil && oldType.(*GeneralizedType) != nil && typeof(old(newType.(*GeneralizedType).Dimensionality)) == *Stream && old(oldType.(*GeneralizedType).Dimensionality) != nil && typeof(result) != *TypeChangeIncompatible ==> called(detectStreamChanges) && result == lastResult(detectStreamChanges)
-//@   ensures two_scalars_are_judged_by_their_cases: !old(isSingleCaseScalar(newType)) && !old(isSingleCaseScalar(oldType)) && typeof(newType) == *GeneralizedType && typeof(oldType) == *GeneralizedType && newType.(*GeneralizedType) != nil && oldType.(*GeneralizedType) != nil && old(newType.(*GeneralizedType).Dimensionality) == nil && old(oldType.(*GeneralizedType).Dimensionality) == nil ==> called(compareGeneralizedTypes) && result == lastResult(compareGeneralizedTypes)
+//@   ensures two_scalars_are_judged_by_their_cases: typeof(newType) == *GeneralizedType && typeof(oldType) == *GeneralizedType && newType.(*GeneralizedType) != nil && oldType.(*GeneralizedType) != nil && old(newType.(*GeneralizedType).Dimensionality) == nil && old(oldType.(*GeneralizedType).Dimensionality) == nil ==> called(compareGeneralizedTypes) && result == lastResult(compareGeneralizedTypes)
 //@   ensures two_references_are_judged_as_references: typeof(newType) == *SimpleType && typeof(oldType) == *SimpleType ==> called(compareSimpleTypes) && result == lastResult(compareSimpleTypes)
 
 // Two references: a pair of definitions that the version pairing matched is judged through the recorded definition
